@@ -84,16 +84,16 @@ type ErrorGhost struct {
 
 type Specs struct {
 	constGlobals map[string]bool
-	errorGhosts []ErrorGhost
-	contracts   map[string]*Contract
-	defines     map[string]*Define
-	pures       map[string]*PureFunc
-	ghosts      map[string]*GhostVar
-	guards      map[string]*Guard
-	externPure  map[string]bool
-	noInline    map[string]bool
-	files       []string
-	trustedList []string
+	errorGhosts  []ErrorGhost
+	contracts    map[string]*Contract
+	defines      map[string]*Define
+	pures        map[string]*PureFunc
+	ghosts       map[string]*GhostVar
+	guards       map[string]*Guard
+	externPure   map[string]bool
+	noInline     map[string]bool
+	files        []string
+	trustedList  []string
 }
 
 var clauseKeywords = []string{"assert", "requires", "ensures", "ghost-ensures", "assume-entry", "modifies", "loop", "trusted", "pure-effects", "inline-ok"}
